@@ -1176,3 +1176,20 @@ def _minmax_dim(is_min):
 
 reg(aten.min.dim)(_minmax_dim(True))
 reg(aten.max.dim)(_minmax_dim(False))
+
+
+def _xlogy(x, y):
+    x, y = as_sym(x), as_sym(y)
+    if x.is_const() and x.c == 0:
+        return Sym.const(0.0)
+    return x * sym_log(y)
+
+
+@simple(aten.xlogy.Tensor, aten.xlogy.Scalar_Self, aten.xlogy.Scalar_Other, aten.special_xlogy.default)
+def c_xlogy(func, args, kwargs):
+    return vec(_xlogy, 2)(A_(args[0]), A_(args[1]))
+
+
+@simple(aten.special_xlog1py.default)
+def c_xlog1py(func, args, kwargs):
+    return vec(lambda x, y: _xlogy(x, as_sym(y) + Sym.const(1.0)), 2)(A_(args[0]), A_(args[1]))
